@@ -126,6 +126,11 @@ def _shard(args):
            "--trace-every", "1" if ctx.quick() else "5",
            # the "executor drops one of its own reads" family: quick = one case on every second shard, thorough = n/3 per shard
            "--spec-cases", str((1 - idx % 2) if ctx.quick() else (n + 2) // 3)]
+    # state dumps at every quiescent point of every run with an injected fault (no model run exists for these): judged in
+    # the harness by the state-invariant oracle (eng::state_invariant_check, sigs C05:state-invariant:*) and written to
+    # inv_ops.txt for the Lean checker of the PROVED engine invariant (`drv_engine inv`)
+    state = not os.environ.get("VERIF_NO_STATE_TIE")
+    if state: cmd += ["--state"]
     if ctx.replay:
         cmd += ["--replay", _replay_text(ctx.replay)]
     else:
@@ -136,7 +141,39 @@ def _shard(args):
     rc, err = vlib.run_driver(DRIVER, os.path.join(out, "ops.txt"), os.path.join(out, "model.txt"))
     if rc != 0:
         return {"dir": out, "error": f"driver exit {rc}: {err[-400:]}"}
-    return {"dir": out}
+    inv = None
+    if state and os.path.exists(os.path.join(out, "inv_ops.txt")):
+        rc, err = vlib.run_driver("drv_engine", os.path.join(out, "inv_ops.txt"), os.path.join(out, "inv_out.txt"), ["inv"])
+        if rc != 0:
+            return {"dir": out, "error": f"drv_engine inv exit {rc}: {err[-400:]}"}
+        inv = inv_results(out, "C05")
+    return {"dir": out, "inv": inv}
+
+
+def inv_results(out, pid, replay_of=None):
+    """aligns the output of `drv_engine inv` (one line per `#D` line) with inv_ops.txt; returns counts and, for every
+    `inv FAIL…` line, an oracle failure whose case is the replayable text of the run (header `# <case file> <name> <variant> <fault>`)"""
+    lines = _read(os.path.join(out, "inv_ops.txt"))
+    res = _read(os.path.join(out, "inv_out.txt"))
+    counts, fails, j, header, last_op = {}, [], 0, "", ""
+    n_d = sum(1 for l in lines if l.startswith("#D"))
+    if n_d != len(res):
+        return {"counts": {"misaligned": 1}, "fails": [{"sig": f"{pid}:state-invariant:inv:misaligned", "desc": f"{n_d} #D lines, {len(res)} answers", "case": ""}]}
+    for l in lines:
+        if l.startswith("# "): header = l[2:]
+        elif l.startswith("#D"):
+            r = res[j]; j += 1
+            key = " ".join(r.split()[:2])
+            counts[key] = counts.get(key, 0) + 1
+            if r.startswith("inv FAIL") or r.startswith("inv bad-digest"):
+                h = header.split(" ", 3)
+                try: text = open(os.path.join(out, "cases", h[0] + ".txt")).read()
+                except (OSError, IndexError): text = ""
+                case = (f"#fault {h[2]} {h[3]}\n" if len(h) == 4 else "") + text
+                if sum(1 for f in fails if f["sig"].endswith(":".join(r.split()[1:3]))) < 2:
+                    fails.append({"sig": f"{pid}:state-invariant:inv:" + ":".join(r.split()[1:3]), "desc": f"[{header}] after `{last_op[:80]}` the Lean checker of the proved engine invariant answers `{r}` on the dumped state {l[3:400]}", "case": case})
+        elif not l.startswith(("case", "node")): last_op = l
+    return {"counts": counts, "fails": fails}
 
 
 def _read(p):
@@ -153,6 +190,11 @@ def run(ctx, boost=1):
     if not ok:
         res.disagreements.append({"line": 0, "op": "cargo build", "impl": log[-1500:], "model": ""})
         return res
+    if not os.environ.get("VERIF_NO_STATE_TIE"):
+        okb, logb, _ = vlib.lean_build(["drv_engine"])
+        if not okb:
+            res.disagreements.append({"line": 0, "op": "lake build drv_engine", "impl": logb[-1500:], "model": ""})
+            return res
     cfg = _cfg_bits()
     ctx.notes.append(f"model configuration (f11 f12 f40) = {cfg} (from known_findings.json / known_findings.d/C05.json: fixed => 1)")
     shards = 1 if ctx.replay else ctx.jobs
@@ -171,6 +213,11 @@ def run(ctx, boost=1):
         for k, v in rep["distribution"].items(): dist[k] = dist.get(k, 0) + v
         if len(res.samples) < 6: res.samples += rep["samples"][:1]
         res.oracle_failures += rep["oracle_failures"]
+        if o.get("inv"):
+            for k, v in o["inv"]["counts"].items(): dist["state_dumps_checked_by_drv_engine_inv:" + k] = dist.get("state_dumps_checked_by_drv_engine_inv:" + k, 0) + v
+            res.oracle_failures += o["inv"]["fails"]
+            try: os.remove(os.path.join(d, "inv_out.txt")); os.remove(os.path.join(d, "inv_ops.txt")) if not o["inv"]["fails"] else None
+            except OSError: pass
         ops, imp, mod = _read(os.path.join(d, "ops.txt")), _read(os.path.join(d, "impl.txt")), _read(os.path.join(d, "model.txt"))
         res.lines_compared += len(ops)
         start, case_bad = 0, False
